@@ -13,6 +13,19 @@ PARTIAL = [
 ]
 
 
+def classify(what, d0, d1):
+    """signature of a difference. A comment whose text contains a digraph/trigraph has a token text
+    shorter than its displayed width; CheckCommentLineLen measures the token text, so the SAME
+    displayed width can be reported or not (known finding): recognised when the only differences
+    are LINE_TOO_LONG diagnostics located at the comment's own token."""
+    import meta as M
+    if what["what"] in ("comment", "block") and any(sp in what["old"] or sp in what["new"] for sp in M.ALT_SPELLINGS + ["??'"]):
+        diff = [x for x in d0 if x not in d1] + [x for x in d1 if x not in d0]
+        if diff and all(x[1] == "LINE_TOO_LONG" and x[2] == what["line"] for x in diff):
+            return "swap:comment-width@alternative-spelling"
+    return f"swap:{what['what']}"
+
+
 def run(res, tier, br, model_ok=True, search=False):
     rng = random.Random(res.seed + 97)
     big = tier == "thorough" or search
@@ -23,6 +36,10 @@ def run(res, tier, br, model_ok=True, search=False):
         ("cm.c", "int\tmain(void)\n{\n\t// inside function\n\treturn (0); /* end of line */\n}\n/* file level */\n#define MSG \"hello world\"\n#define CH 'x'\n", 0),
         ("lit.c", "char\t*g_s = \"a string, with; stuff\";\nint\tf(char *s)\n{\n\tif (s[0] == 'a' && g_s[1] != 'b')\n\t\treturn (ft_strlen(\"xyz abc\"));\n\treturn (0);\n}\n", 0),
     ]
+    # diagnostics located to the RIGHT of a literal / comment on the same line (their columns depend on how
+    # the lexer counted the literal's raw characters)
+    extra.append(("right.c", "int\tf(char *s, int b)\n{\n\ts = \"hello world text\" +b;\n\tf(\"another literal\", b) ;b = 1;\n"
+                  "\tb = 'c' +b;\n\treturn (0); /* trailing comment */ b++;\n}\n#define MSG \"text of a macro\" + 1\n/* block */ int g_x ;\n", 0))
     bases += extra
     bases += [(n, s, 0) for n, s in (families.repo_samples() if big else families.repo_samples()[::5])]
     for name, src, hl in bases:
@@ -30,7 +47,7 @@ def run(res, tier, br, model_ok=True, search=False):
         if o0 not in ("ok", "fatal"):
             continue
         has_hdr = src.startswith("/* ****")
-        for _ in range(8 if big else 4):
+        for _ in range(10 if big else (12 if name == 'right.c' else 4)):
             sw = meta.swap_one(src, rng, header_lines=(11 if has_hdr else 0))
             if not sw:
                 break
@@ -41,7 +58,7 @@ def run(res, tier, br, model_ok=True, search=False):
             if (o0, d0) != (o1, d1):
                 gone = [x for x in d0 if x not in d1][:3]
                 came = [x for x in d1 if x not in d0][:3]
-                res.report(f"swap:{what['what']}", f"{name} line {what['line']}: replacing {what['old']!r} by {what['new']!r} in a {what['what']}: "
+                res.report(classify(what, d0, d1), f"{name} line {what['line']}: replacing {what['old']!r} by {what['new']!r} in a {what['what']}: "
                            f"outcome {o0}->{o1}, diagnostics gone {gone}, new {came}",
                            {"kind": "swap", "name": name, "original": src, "swapped": new, "what": what})
     # boundary-shape sweep on the hand-written files and a few generated ones
@@ -56,10 +73,18 @@ def run(res, tier, br, model_ok=True, search=False):
             if (o0, d0) != (o1, d1):
                 gone = [x for x in d0 if x not in d1][:3]
                 came = [x for x in d1 if x not in d0][:3]
-                res.report(f"swap:{what['what']}", f"{name} line {what['line']}: replacing {what['old']!r} by {what['new']!r} in a {what['what']}: "
+                res.report(classify(what, d0, d1), f"{name} line {what['line']}: replacing {what['old']!r} by {what['new']!r} in a {what['what']}: "
                            f"outcome {o0}->{o1}, diagnostics gone {gone}, new {came}",
                            {"kind": "swap", "name": name, "original": src, "swapped": new, "what": what})
     res.sample({"swap": {"file": bases[0][0]}})
+
+
+def reproduce(res, k):
+    if not k.get("swapped"):
+        return
+    a = meta.diags(k.get("input_name") or "a.c", k["input"]); b = meta.diags(k.get("input_name") or "a.c", k["swapped"])
+    if (a[0], a[1]) != (b[0], b[1]):
+        res.report(k["signature"], "recorded pair of a listed finding", {"kind": "swap", "name": "a.c", "original": k["input"], "swapped": k["swapped"], "what": {}})
 
 
 def replay(rp):
